@@ -502,6 +502,7 @@ type harness struct {
 	sets     int
 	cnt      map[string]int
 	hashSeen map[string]string // request hash hex -> semantic key (diagnostic: key-level collisions)
+	bigs     []bigRef          // the last few big replies stored (re-read after later big stores)
 }
 
 func (h *harness) count(k string) { h.cnt[k]++ }
@@ -590,6 +591,13 @@ func (h *harness) hash(r semReq) []byte {
 		h.hashSeen[hx] = sk
 	}
 	return hash
+}
+
+// bigRef remembers how to read back a big reply stored earlier.
+type bigRef struct {
+	req  semReq
+	opts getOpts
+	st   *stored
 }
 
 type getOpts struct {
@@ -1014,6 +1022,24 @@ func (h *harness) scenario(n int, rng *rand.Rand) {
 			present = true
 		}
 	}
+	if ps.Size > common.CompressionThreshold {
+		// big replies stored EARLIER are read again now that another big reply has gone through the same store path:
+		// a stored entry must not change when later entries are written
+		plain := getOpts{Finalized: finalized, BlockHash: bhash, ReqBlock: base.Block, Via: "direct"}
+		for _, old := range h.bigs {
+			h.count("revisits-of-an-earlier-big-reply")
+			if res := h.get(old.req, old.opts, fmt.Sprintf("re-read of the big reply stored %d stores earlier, after another big reply was stored", h.sets-old.st.SetNo)); res.st == old.st {
+				h.count("revisits-of-an-earlier-big-reply-hit-intact")
+				if old.st.Payload.Kind == "json" || old.st.Payload.Kind == "zeros" {
+					run.Nontrivial("revisit|" + old.st.Payload.Class + "|" + old.st.Payload.Kind)
+				}
+			}
+		}
+		h.bigs = append(h.bigs, bigRef{req: base, opts: plain, st: st})
+		if len(h.bigs) > 2 {
+			h.bigs = h.bigs[1:]
+		}
+	}
 	// 2. one-field-different requests — must never be answered with this entry
 	k := 3 + rng.Intn(4)
 	perm := rng.Perm(len(mutFields))
@@ -1158,7 +1184,7 @@ func TestC36(t *testing.T) {
 	run := ev.Start("C36")
 	utils.SetGlobalLoggingLevel("fatal")
 	debug.SetGCPercent(400) // multi-MB replies are copied several times per step; memory is not what is being measured
-	target := run.Pick(4000, 150000)
+	target := run.Pick(4000, 60000)
 	ctx, cancel := context.WithCancel(context.Background())
 	defer cancel()
 
@@ -1203,6 +1229,7 @@ func TestC36(t *testing.T) {
 	run.Require("gRPC pass: hits through the loopback listener", h.cnt["hits-via-grpc"] > 0)
 	run.Require("compressed payload (> threshold, compressible) hit, direct handler", h.cnt["hits-compressed-payload-via-direct"] > 0)
 	run.Require("compressed payload (> threshold, compressible) hit, through gRPC", h.cnt["hits-compressed-payload-via-grpc"] > 0)
+	run.Require("earlier big replies read back intact after later big stores", h.cnt["revisits-of-an-earlier-big-reply-hit-intact"] > 0)
 	for _, c := range []string{"0", "1", "T-1", "T", "T+1", "multi-MB"} {
 		run.Require("payload size class hit: "+c, h.cnt["hit-payload-class-"+c] > 0)
 	}
